@@ -18,7 +18,9 @@ THEOREMS = ["Rva.lint_codes_nodup", "Rva.lint_tables_total", "Rva.lint_severity_
             "Rva.garbageRead_reported", "Rva.garbageRead_silent", "Rva.stack_first_stop",
             "Rva.stackOffset_reported",
             "Rva.useAfterCall_reported", "Rva.firstUsage_next",
-            "Rva.overwriteCalleeSaved_reported", "Rva.neverAssigned_reported"]
+            "Rva.overwriteCalleeSaved_reported", "Rva.neverAssigned_reported",
+            "Rva.firstUsage_at_distance", "Rva.useAfterCall_reported_at_distance",
+            "Rva.neverAssigned_reported_at_distance"]
 
 
 def find(lines, pred):
